@@ -115,6 +115,18 @@ CLAIMED = {
             "Trusted: rustc nightly coroutine MIR (pre-transform); tower-lsp's concurrency (4 handlers). The rule is "
             "necessary, not sufficient, for the property.",
             "DESIGN.md §4 C18"),
+    "C01": ("MIR field-use coverage of AST (lowering) and IR (emission), match exhaustiveness of 13 dispatchers, "
+            "operator-identity decision tables vs Rust spelling oracle, grouping-carrier rule, slice of the "
+            "reassign-vs-bind decision",
+            "Decides necessary conditions of behaviour preservation: nothing the user wrote is dropped before Rust "
+            "is produced (every non-span AST field read by lowering, every constructible IR field read by the "
+            "emitter); dispatchers name every variant; operators keep their identity through AST->IR->token; source "
+            "grouping has a carrier (it has none today: reproduced miscompilation); `x = e` is resolved by scope "
+            "membership. Observable equivalence of the generated binary with the documented semantics is NOT "
+            "decided (evaluation order, conversions, borrow/clone insertion).",
+            "Trusted: rustc nightly MIR; exemption tables in rules/c01.py (decorators, labels, redundant fields); "
+            "TOKEN_ORACLE/BINOP_ORACLE transcriptions.",
+            "DESIGN.md §4 C01"),
 }
 
 NOT_APPLICABLE = {
